@@ -11,6 +11,7 @@ mod c16;
 mod c19;
 mod c10;
 mod c14;
+mod c13;
 
 use common::Case;
 use std::fs;
@@ -25,6 +26,7 @@ fn header(prop: &str) -> &'static str {
         "C19" => "From TSG Require Import Model.Cli.\n",
         "C10" | "C10rx" => "From TSG Require Import Model.ScanOps.\n",
         "C14" => "From TSG Require Import Model.C14Obs.\n",
+        "C13" | "C13D" => "From TSG Require Import Model.Stdlib.\n",
         _ => "",
     }
 }
@@ -72,6 +74,7 @@ fn main() {
                 "C10" => c10::gen(&mut rng, n),
                 "C10rx" => c10::gen_rx_stream(&mut rng, n),
                 "C14" => c14::gen(&mut rng, n),
+                "C13" | "C13D" => c13::gen(&mut rng, n),
                 _ => { eprintln!("unknown property {}", prop); std::process::exit(2) }
             };
             write_cases(&prop, &cases, shards, &out);
@@ -89,6 +92,7 @@ fn main() {
                 "C10" => c10::replay(&j["case"]),
                 "C10rx" => c10::replay_rx(&j["case"]),
                 "C14" => c14::replay(&j["case"]),
+                "C13" | "C13D" => c13::replay(&j["case"]),
                 _ => { eprintln!("unknown property {}", prop); std::process::exit(2) }
             };
             write_cases(&prop, &[case], 1, &out);
